@@ -483,6 +483,15 @@ def render_tok(rnd, tok):
     if st == 'bare':
         return esc(tok)
     q = 34 if st == 'dq' else 39
+    if rnd.random() < 0.5:
+        # inside a quoted token a quote of the OTHER kind is an ordinary character: it may stay unescaped ("it's here")
+        other = 39 if q == 34 else 34
+        body = []
+        for b in tok:
+            if b in (q, 92):
+                body.append(92)
+            body.append(b)
+        return [q] + body + [q]
     return [q] + esc(tok) + [q]
 
 
@@ -643,7 +652,7 @@ TRUSTED_BASE = ['V.C14.Model lookup (proved in C14) and its trusted base (std::m
 ASSUMPTIONS = ['tokens are NUL-free byte strings; option names as in C14 (bytes 1..126, not starting with "-") and without "="',
                'a token that mixes known flags with an unknown alias character (-fx) and an explicit empty value after "=" for a required-argument option '
                '(--beta= --alpha=3) are outside the supported spellings (probed; correspondence only)',
-               'command strings are rendered with bare / single-quoted / double-quoted tokens in which " \' \\ are backslash-escaped; bare tokens are non-empty and free of whitespace',
+               'command strings are rendered with bare / single-quoted / double-quoted tokens in which " \' \\ are backslash-escaped (inside a quoted token a quote of the other kind may also stay unescaped); bare tokens are non-empty and free of whitespace',
                'config files: names without "=" and not starting with "#"; values without leading/trailing blanks and without newline; continuation lines non-empty, without "=" and not starting with "#"']
 LEVEL_TEXT = ('Machine-checked proof (Coq) about an executable model of the three parsers tied to the code by differential correspondence: every item list written in any '
               'mixture of the supported spellings parses to exactly the intended pairs and remaining tokens; tokenising any rendered command string gives back the tokens; '
